@@ -285,6 +285,8 @@ def compare_one(ctx, c, p, im, mv):
         ctx.bump("model_evaluated")
         if not mv["wf"]:
             ctx.disagreement("wf_nodes is false on CPython's node list", short, None, mv)
+        if not mv["lead_ok"]:
+            ctx.disagreement("leading_ok is false: text before the first node is not comments/blanks", short, None, mv)
         if not mv["ends_ok"]:
             ctx.disagreement("ends_ok is false on CPython's node list", short, None, mv)
         if "exc" in im:
